@@ -58,20 +58,31 @@ def run(prop, tier, seed, plan, replay_dir=None, merge=False, full=False):
         total = explained = states = gen = 0
         samples = []
         modes = {}
-        for sd in seeds:
-            hist = os.path.join(tmp, "hist-%d.ndjson" % sd)
-            p = subprocess.run([stress, "-out", hist, "-n", str(nprog), "-seed", str(sd)], capture_output=True, text=True, env=dict(os.environ, TMPDIR=tmp))
+        # two passes per seed: random programs judged for linearizability against the sequential watch-set specification
+        # (LinTrace), and programs inside the universe of the scheduling model judged against that model (SchedTrace:
+        # TLC searches for an internal schedule of InotifySched that explains everything observed from outside)
+        nsched = int((150 if tier == "quick" else 1000) * float(os.environ.get("VERIF_SCALE", "1")))
+        if merge and not full:
+            nsched = nsched // 2
+        passes = [(sd, "lin", "LinTrace", nprog, []) for sd in seeds] + [(sd, "sched", "SchedTrace", nsched, ["-mode", "sched"]) for sd in seeds]
+        if replay_dir:
+            which = meta.get("pass", "lin")
+            passes = [x for x in passes if x[1] == which]
+        sched_total = sched_ok = 0
+        for sd, pname, spec, npass, extra in passes:
+            hist = os.path.join(tmp, "hist-%s-%d.ndjson" % (pname, sd))
+            p = subprocess.run([stress, "-out", hist, "-n", str(npass), "-seed", str(sd)] + extra, capture_output=True, text=True, env=dict(os.environ, TMPDIR=tmp))
             if p.returncode != 0:
                 log("INFRA-ERROR: inostress rc=%d %s" % (p.returncode, (p.stdout + p.stderr)[-1500:]))
                 return 2
-            d = engines.spec_copy(os.path.join(tmp, "tr-%d" % sd))
+            d = engines.spec_copy(os.path.join(tmp, "tr-%s-%d" % (pname, sd)))
             outj = os.path.join(d, "out.json")
             e = engines.tlc_env(d)
             e["TRACE"], e["TRACE_OUT"] = hist, outj
-            p = subprocess.run(["timeout", "3000", "tlc", "-workers", "1", "-metadir", os.path.join(d, "meta"), "-config", "LinTrace.cfg", "LinTrace.tla"],
+            p = subprocess.run(["timeout", "3000", "tlc", "-workers", "1", "-metadir", os.path.join(d, "meta"), "-config", spec + ".cfg", spec + ".tla"],
                                cwd=d, env=e, capture_output=True, text=True)
             if p.returncode != 0 or not os.path.exists(outj):
-                log("MODEL-ERROR: LinTrace did not finish (rc=%d)\n%s" % (p.returncode, (p.stdout + p.stderr)[-2500:]))
+                log("MODEL-ERROR: %s did not finish (rc=%d)\n%s" % (spec, p.returncode, (p.stdout + p.stderr)[-2500:]))
                 return 2
             import re
             m = re.search(r"(\d+) states generated, (\d+) distinct states found", p.stdout)
@@ -84,6 +95,8 @@ def run(prop, tier, seed, plan, replay_dir=None, merge=False, full=False):
             hung = {h[0]: h[1] for h in res["hung"]}
             crashed = {c[0]: c[1] for c in res["crashed"]}
             total += len(progs)
+            if pname == "sched":
+                sched_total += len(progs)
             for idx in sorted(progs):
                 cause = None
                 if idx in crashed:
@@ -92,8 +105,12 @@ def run(prop, tier, seed, plan, replay_dir=None, merge=False, full=False):
                     cause = "hang:" + ",".join(sorted(set(hung[idx])))
                 elif idx not in ok:
                     cause = signature(history_of(hist, idx))
+                    if pname == "sched":
+                        cause = cause.replace("not_linearizable", "not_explained_by_scheduling_model")
                 else:
                     explained += 1
+                    if pname == "sched":
+                        sched_ok += 1
                     continue
                 # which properties does it concern?
                 props = {"C07"}
@@ -110,7 +127,7 @@ def run(prop, tier, seed, plan, replay_dir=None, merge=False, full=False):
                 if k:
                     known_hit.setdefault(k["cause"], (k, "seed %d program %d" % (sd, idx)))
                 else:
-                    viols.append((sd, idx, cause, hist))
+                    viols.append((sd, idx, cause, hist, pname))
             if len(samples) < 2:
                 hl = history_of(hist, sorted(progs)[0])
                 samples.append([json.loads(x) for x in hl[:30]])
@@ -125,7 +142,7 @@ def run(prop, tier, seed, plan, replay_dir=None, merge=False, full=False):
         rc = 0
         seen = set()
         nrep = 0
-        for sd, idx, cause, hist in viols:
+        for sd, idx, cause, hist, pname in viols:
             if cause in seen and nrep >= 3:
                 continue
             seen.add(cause)
@@ -135,7 +152,7 @@ def run(prop, tier, seed, plan, replay_dir=None, merge=False, full=False):
             shutil.rmtree(rd, ignore_errors=True)
             os.makedirs(rd)
             open(os.path.join(rd, "history.ndjson"), "w").writelines(history_of(hist, idx))
-            json.dump(dict(property=prop, seed=sd, nprog=idx + 1, program=idx, cause=cause), open(os.path.join(rd, "violation.json"), "w"))
+            json.dump(dict(property=prop, seed=sd, nprog=idx + 1, program=idx, cause=cause, **{"pass": pname}), open(os.path.join(rd, "violation.json"), "w"))
             log("violation: seed=%d program=%d cause=%s" % (sd, idx, cause))
             log("VIOLATION property=%s replay=%s" % (prop, rd))
             nrep += 1
@@ -147,6 +164,7 @@ def run(prop, tier, seed, plan, replay_dir=None, merge=False, full=False):
             if os.path.exists(evf):
                 ev = json.load(open(evf))
                 ev["coverage"]["concurrent_programs"] = dict(programs=total, linearized=explained, tlc_states=states, modes=modes,
+                                                              explained_by_scheduling_model="%d of %d" % (sched_ok, sched_total),
                                                               rule="inostress -race histories checked by LinTrace.tla; hangs, panics and race reports are attributed to this property")
                 ev["coverage"]["states"] = ev["coverage"].get("states", 0) + states
                 ev["coverage"]["transitions"] = ev["coverage"].get("transitions", 0) + gen
@@ -161,8 +179,10 @@ def run(prop, tier, seed, plan, replay_dir=None, merge=False, full=False):
                                     rule="random concurrent programs (2-4 API goroutines x 6-15 calls on 3 overlapping paths, 2 file system goroutines, consumer pace fast/slow/"
                                          "events-only/late, GOMAXPROCS 1/2/4/16, buffer 0/1/16; one program in five is a 'duel': 20-50 rounds of Remove(p) against 1-3 Add(p) started together "
                                          "while the reader is parked, bracketed by WatchList before and after the consumer catches up), built with -race; every program is distinct (seeded) and non-trivial (concurrent calls); "
-                                         "modes: " + json.dumps(modes),
-                                    programs_linearized=explained, samples=samples, exhaustive=False),
+                                         "a second batch stays inside the universe of the scheduling model (one watched file, chmod / rename-away / delete, polling consumer) and is "
+                                         "validated against InotifySched with all internal steps silent (SchedTrace.tla); modes: " + json.dumps(modes),
+                                    programs_linearized=explained, programs_explained_by_scheduling_model="%d of %d" % (sched_ok, sched_total),
+                                    samples=samples, exhaustive=False),
                       assumptions=["the race detector is the observation channel for 'no data races'; schedules are those the Go scheduler produced under -race",
                                    "a call that has not returned after 8 s is reported as a hang"],
                       wall_s=round(time.time() - t0, 1), violations=len(viols))
